@@ -124,7 +124,7 @@ PROPS = {
         'not_decided': 'completeness of the candidate filter for spellings of a name other than the canonical escaped one.',
     },
     'C10': {
-        'rules': both(cs.rule_cs_trigger, cs.rule_cs_dispatch, cs.rule_cs_width, cs.rule_cs_writer, cs.rule_rx_field, rs.rule_fl_flags, rs.rule_fl_none_complete),
+        'rules': both(cs.rule_cs_trigger, cs.rule_cs_dispatch, cs.rule_cs_width, cs.rule_cs_writer, cs.rule_rx_field, rs.rule_fl_flags, rs.rule_fl_none_complete) + one(rd.rule_rd_jschunk),
         'thorough_rules': both(cs.rule_cs_accept, cs.rule_cs_extws, cs.rule_rx_newline) + one(xp.rule_rx_xp),
         'explanation': 'Decides necessary conditions of the round trip (stated as such): the characters that trigger quoting include every character the reader treats specially under the same policy, inner quotes are doubled (globally) and the field enclosed, reader/writer dispatch tables are total over the five policies and pair matching split/join, delimiter comparisons and position steps use the delimiter length, one separator per record, and lossy output (None, delimiter in simple output) always sets its warning flag which get_warnings reports.',
         'not_decided': 'equality of the table read back for any table (a round-trip statement over all strings); encoding behaviour of io.TextIOWrapper.',
@@ -172,7 +172,7 @@ PROPS = {
         'not_decided': 'nothing further for single-line texts once re.escape / RegExp semantics are trusted (`.` and `$` treat LF specially - outside the quantifier).',
     },
     'C18': {
-        'rules': XP_ALL + both(cs.rule_rx_field, cs.rule_cs_trigger, cs.rule_cs_accept, cs.rule_cs_width, cs.rule_cs_extws, cs.rule_cs_dispatch, hd.rule_hd_table),
+        'rules': XP_ALL + both(cs.rule_rx_field, cs.rule_rx_ws, cs.rule_rx_newline, cs.rule_cs_trigger, cs.rule_cs_accept, cs.rule_cs_width, cs.rule_cs_extws, cs.rule_cs_dispatch, hd.rule_hd_table) + one(rd.rule_rd_jschunk),
         'thorough_rules': both(rd.rule_rd_bom, rd.rule_rd_comment, rd.rule_rd_rfc, rs.rule_fl_flags, rs.rule_fl_fields, cs.rule_rx_newline, cs.rule_rx_ws),
         'explanation': 'Decides agreement of canonical facts extracted independently from each port: 27 paired regexes language-equal (or allow-listed with reason), both quoted-field regexes equal to the reference language, same quote trigger sets, same acceptance rule and delimiter-width handling, same policy dispatch, same statement keywords and groups (FROM only in Python), same reader warning and IO error message templates, same header naming decision table; both ports are held to the same rule for BOM/comment/RFC handling.',
         'not_decided': 'header inference on arbitrary select lists (python ast vs JS text spans are different algorithms); behavioural equality of the two reader architectures.',
